@@ -86,10 +86,12 @@ type Universe struct {
 	accs  map[string]bool         // hex of raw account bytes
 	addrs map[common.Address]bool // balance holders
 	known map[common.Address]bool // accounts present in the baseline state
+	// ids that are or were validator records of the reference
+	validators map[string]bool
 }
 
 func newUniverse() *Universe {
-	return &Universe{ids: map[string]bool{}, accs: map[string]bool{}, addrs: map[common.Address]bool{}, known: map[common.Address]bool{}}
+	return &Universe{ids: map[string]bool{}, accs: map[string]bool{}, addrs: map[common.Address]bool{}, known: map[common.Address]bool{}, validators: map[string]bool{}}
 }
 
 func (u *Universe) addID(id []byte) {
@@ -220,8 +222,9 @@ func takeView(root common.Hash, u *Universe, heights []uint64, maxH uint64) (*Vi
 		t.Proposers, t.Validators = mm.GetAllMinerIdAndAccount(h, adb)
 		v.tot[h] = t
 	}
+	// group members are registered validators: ask for the ids that are (or were) validator records
 	var members [][]byte
-	for _, id := range sortedKeys(u.ids) {
+	for _, id := range sortedKeys(u.validators) {
 		members = append(members, unhx(id))
 		v.vIDs = append(v.vIDs, id)
 	}
@@ -303,6 +306,7 @@ type Rec struct {
 	Refunded     *big.Int
 	Status       int
 	ApplyHeight  uint64
+	BoundAt      uint64 // height of the block in which the current account got control (apply / change-account)
 	MaybeRemoved bool // stake reached 0 by a refund: "removed or aborted" — resolved by observation
 	Genesis      bool
 }
@@ -378,7 +382,7 @@ func (f *Ref) accept(op *Op, H uint64, keyID, keyAddr []byte) {
 			f.stats["apply_accepted_for_existing_id"]++
 		}
 		f.recs[hx(id)] = &Rec{ID: id, Type: op.Type, Account: acc, Applied: op.Stake, Added: new(big.Int), Refunded: new(big.Int),
-			Status: stNormal, ApplyHeight: H + common.HeightAfterStake}
+			Status: stNormal, ApplyHeight: H + common.HeightAfterStake, BoundAt: H}
 	case "add":
 		if op.Stake == 0 {
 			return
@@ -433,6 +437,7 @@ func (f *Ref) accept(op *Op, H uint64, keyID, keyAddr []byte) {
 			return
 		}
 		r.Account = unhx(op.Account)
+		r.BoundAt = H
 	}
 }
 
